@@ -10,7 +10,11 @@ type prop = {
   nontrivial : sexp list -> string option;
 }
 
+let sess_prop check nontrivial = { tag = "sess"; check; cross_header = Sess.sess_cross_header;
+  cross_footer = Sess.sess_cross_footer; nontrivial }
+
 let props : (string * prop) list = [
+  "SESS", sess_prop P_sess.check P_sess.nontrivial;
   "C20", { tag = "c20"; check = P_c20.check; cross_header = P_c20.cross_header;
            cross_footer = P_c20.cross_footer; nontrivial = P_c20.nontrivial };
 ]
